@@ -304,7 +304,7 @@ def probe_d1(ctx):
 
 def run(ctx):
     rnd = random.Random(ctx.seed)
-    nprocs = 16
+    nprocs = int(os.environ.get("VERIF_PROCS", "16"))
     import signac  # noqa: imported once here so that forked children do not pay for it
     ctx.assumptions += ["rename(2) atomic; a process crash loses nothing a completed write(2) delivered (PosixFs model)",
                         "harness/fsshim.py interposes on every fs entry point (strace audit in the thorough tier)",
@@ -442,12 +442,26 @@ def run(ctx):
             steps = ", ".join("%s@%s %s" % (e["res"], e.get("k") or "r%s" % e.get("r"), L.OPMAP.get(e["op"], e["op"])) for e in triggered)
             ctx.violation(sig, "%s [%s, %s, %s] with %s: %s" % (s.spec, s.variant, s.config, origin, steps, text),
                           {"scenario": s.key, "mode": {k: v for k, v in mode.items() if k != "presnap"}})
-        if not mode.get("rfaults"):
+        evs = L.spec_events(out["events"])
+        skip_trace = bool(mode.get("rfaults"))
+        if fixed and s.kw.get("clone"):
+            # FixedCloneCleanup: the error-ignoring rmtree of the destination is ONE silent step of the specification
+            # (PosixFs!RemoveTree); its unlink/rmdir events are dropped, later events renumbered
+            if any(e["op"] in ("unlink", "rmdir", "remove") and e["res"] != "ok" for e in out["events"]):
+                skip_trace = True  # the fault hit the clean-up itself: judged by observation only
+            kept, dropped = [], 0
+            for e in evs:
+                if e["op"] in ("unlink", "rmdir"):
+                    dropped += 1
+                else:
+                    kept.append(dict(e, k=e["k"] - dropped))
+            evs = kept
+        if not skip_trace:
             rep = []
             for pr, o in sorted(out["obs"].items()):
                 if isinstance(o.get("check"), list):
                     rep += [[pr, L.ROLE_OF_ID.get(i, i)] for i in o["check"]]
-            traces.append({"scn": s.spec, "ev": L.spec_events(out["events"]), "res": res, "disk": L.abstract_disk(post, L.tokens_of(s)), "rep": rep,
+            traces.append({"scn": s.spec, "ev": evs, "res": res, "disk": L.abstract_disk(post, L.tokens_of(s)), "rep": rep,
                            "cfg": s.config})
             tmeta.append((s, mode, bool(bad), origin))
 
